@@ -44,7 +44,7 @@ def evaluate(ast, files=None, minparen=False):
     detail = {"files": {"x.ms": src}, "res": res.brief(), "expected_lines": it.out[-40:],
               "expected_ok": ok, "expected_failure": failure.kind if failure else None}
     info = {"ok": ok, "failure": failure.kind if failure else None, "res": res}
-    if res.exit != 0 and "Did not compile" in res.err:
+    if driver.compile_rejected(res):
         return "rejected", f"the compiler rejects a well-typed core program: {res.out[-300:]}", detail, info
     if ok:
         if res.exit != 0:
@@ -350,7 +350,7 @@ class C01(Check):
         if res.exit != 0 or lines != exp:
             import re
             stem = re.sub(r"(x|_|1|1x|X)$", "", nm).lower()
-            rejected = res.exit != 0 and "Did not compile" in res.err
+            rejected = driver.compile_rejected(res)
             viol.append({"sig": {"kind": "identifier-spelling", "stem": stem, "role": role, "how": "rejected" if rejected else "misbehaves"},
                          "what": f"`{nm}` as {role}: the program prints {exp} with any other name; here " +
                                  (f"the compiler rejects it: {res.out[-160:]!r}" if rejected else f"it prints {lines} (exit {res.exit}) {res.err[-120:]}"),
@@ -415,7 +415,7 @@ class C01(Check):
         r1 = driver.run(["run", entry, "-q"], d1, timeout=20)
         viol = []
         same = r0.exit == r1.exit and r0.out == r1.out if r0.exit == 0 else (r1.exit != 0 and r0.lines()[:3] == r1.lines()[:3] or
-                                                                            ("Did not compile" in r0.err) == ("Did not compile" in r1.err) and r1.exit != 0)
+                                                                            (driver.compile_rejected(r0)) == (driver.compile_rejected(r1)) and r1.exit != 0)
         if not same:
             viol.append({"sig": {"kind": "lexical-transformation", "how": how, "generator": nm.split(":")[0]},
                          "what": f"{nm} after `{how}`: exit {r0.exit} -> {r1.exit}; output {r0.out[-120:]!r} -> {(r1.out + r1.err)[-200:]!r}",
